@@ -9,10 +9,11 @@ NA = {
  "C07": "quantifies over thread interleavings of readers with decompression workers: Kani/CBMC execute one thread, rayon cannot even be compiled by Kani 0.68 (catch_unwind ICE), the sequential writer loop decode_to_end did not terminate under CBMC in 15 min; nothing that decides the property can be encoded (DESIGN.md section 5)",
  "C08": "quantifies over completion orders of compression worker threads; ClusterWriterProxy::new spawns the threads at construction and Kani has no thread model (DESIGN.md section 5)",
  "C09": "quantifies over crash points of real file-system writes and rename atomicity (OS semantics behind FFI); no function whose symbolic execution says anything about a process dying mid-write (DESIGN.md section 5)",
- "C15": "mechanism is sort + index assignment inside EntryStore::finalize = rayon par_sort/par_iter (not compilable by Kani) followed by HashMap-based Schema::finalize (does not terminate under CBMC) (DESIGN.md section 5)",
  "C16": "decision lives in methods of ContentPackCreator which cannot be constructed without spawning threads; detect branch is floating point; dedup adder is HashMap<blake3::Hash,_> (DESIGN.md section 5)",
 }
 TEXT = {
+ "C15": ("Bounded model checking of the real deferred-value mechanism around the position assignment: the shared cell (Vow::fulfil / Bound::get / Word::from(Bound)) with handles taken before, between and after two assignments of symbolic positions; the real EntryStore::add_entry with real BasicEntry values (handle == the stored entry's own cell, insertion position, not shared); a reference column (schema::Property::process + finalize + serialize_entry, unsigned and signed) and an index offset bound to an entry position: the width chosen and the value written are those of the position assigned last, never of the value the cell had when the reference was made. The position assignment itself inside EntryStore::finalize is rayon code Kani cannot compile: its effect (set_idx with the final position before Schema::process) is the stated assumption.",
+         "4 C15", "Kani/CBMC; kernel level: two cells, two assignments each; EntryStore::finalize (rayon sort + par_iter_mut position assignment) and Schema::finalize (HashMap) are outside, so a change in the order of sort / assignment / column sizing inside finalize is not detected; single thread (atomic orderings not exercised)"),
  "C10": ("Bounded model checking of the real container writer and of the pieces the one-file/many-files equivalence rests on: the real ContainerPackCreator (from_file, add_pack, into_file + InContainerFile write/seek/close, finalize) run inside Kani on a memory recipient with symbolic pack bytes and free data: the declared size equals the bytes written, the tail mirrors the header block, every locator (uuid, size, offset) delimits exactly the bytes of its pack and positions inside a contained pack are relative to its start; the real ChainedLocator over three locators with symbolic answers (first hit wins, errors propagate); Skip offset arithmetic; the real blind open's control flow for the header-at-start branch and the real ContainerPackHeader/PackLocator readers (shared with C06/C14).",
          "4 C10", "Kani/CBMC; 2 packs, 5 pack bytes; Uuid::new_v4 fixed; Serializer::close without CRC; Container::new / get_pack (HashMap, file locators), the order in which Container builds its locator chain, the mirrored-tail branch of the blind open and the file-system locator are outside: no claim is made about them"),
  "C04": ("Bounded model checking of which bytes are hashed and compared: one inductive step of the real ManifestCheckStream from any state (masked exactly on bytes 38..256 of each pack-info block, nothing else altered, in step with its source), its set-up from the real PackOffsetsIter, the real CheckInfo::{new_blake3,check} with blake3 replaced by a tap + stand-in digest, and the real Pack::check of DirectoryPack, ManifestPack and ContentPack on pack states built over a symbolic body: the stream fed to the hash is exactly [0, check_info_pos), a pristine pack verifies, any single altered byte of the body or of the stored digest does not. A check that hashes a shorter range or compares nothing passes the test suite and fails here.",
